@@ -9,7 +9,7 @@ use crate::rng::Rng;
 pub const RULE: &str = "case = one generated motif file (format in {JASPAR raw, JASPAR 2016, TRANSFAC, UniPROBE}; DNA, protein where the format allows; 1..600 records so that the JASPAR readers compact their buffer many times; widths 1..40; counts 0..u32::MAX (TRANSFAC: < 2^24, integer or x.25 decimals); optional description / accession / name / DE present or absent; symbol rows / columns shuffled or partial; optional VV header and DT/CO/BF/BS/CC/RN blocks for TRANSFAC; blank lines between UniPROBE records; free-text fields may contain or end in `//`, `XX`, `P0`; a third of the JASPAR / TRANSFAC files separate records by blank or whitespace-only lines and may end in some; 30% of the files are also read with CRLF line ends) read under 9 delivery schedules: Cursor, and a monitor-owned Read behind BufReader::with_capacity(c), c in {1,2,3,7,64,4096,file length,random} with whole / 1-byte / random short reads and injected ErrorKind::Interrupted. Oracle = the generator's model: same number of records, same order, fields as written (trimmed), every cell at (position, symbol column), zero elsewhere, then end of input. The bundled corpora (JASPAR2024.pwm, prodoric.transfac, test files) are checked against an independent line-based parser under the same schedules. Non-trivial = file with >= 2 records; distinct = distinct file bytes.";
 
 pub const REQUIRED: &[&str] = &[
-    "format.jaspar", "format.jaspar16", "format.transfac", "format.uniprobe", "alphabet.protein", "alphabet.user_defined_40_symbols", "records.1",
+    "format.jaspar", "format.jaspar16", "format.transfac", "format.uniprobe", "alphabet.protein", "alphabet.user_defined_40_symbols", "reread.dna_file_with_protein_alphabet", "records.1",
     "records>100", "file>64KiB", "schedule.cursor", "schedule.capacity1", "schedule.one_byte_reads",
     "schedule.interrupts", "schedule.whole_file", "corpus.JASPAR2024.pwm", "corpus.prodoric.transfac",
     "corpus.test_files", "field.description_absent", "field.description_present", "columns.shuffled_or_partial", "width>=100", "blank_lines_between_records.jaspar", "blank_lines_between_records.jaspar16", "blank_lines_between_records.transfac", "newline.crlf.jaspar", "newline.crlf.jaspar16", "newline.crlf.transfac", "newline.crlf.uniprobe",
@@ -124,6 +124,34 @@ fn gen_case(case: u64, rng: &mut Rng, rep: &mut Report, cfg: &Config) {
         rep.nontrivial(d.get());
     }
     check_file(case, rng, rep, format, protein, &f.text, &f.records, "generated");
+    if !protein && format != Format::Jaspar && rng.chance(0.3) {
+        // A C G T (and N) are letters of the protein alphabet too: the same bytes are a well-formed
+        // protein file, read on the same thread right after the DNA reading
+        const TO_PROTEIN: [usize; 5] = [0, 1, 16, 5, 11]; // A C T G N -> A C T G N(asparagine)
+        let mapped: Vec<Rec> = f
+            .records
+            .iter()
+            .map(|r| Rec {
+                id: r.id.clone(),
+                accession: r.accession.clone(),
+                name: r.name.clone(),
+                description: r.description.clone(),
+                cells: r
+                    .cells
+                    .iter()
+                    .map(|row| {
+                        let mut out = vec![0f64; 21];
+                        for (j, &x) in row.iter().enumerate() {
+                            out[TO_PROTEIN[j]] = x;
+                        }
+                        out
+                    })
+                    .collect(),
+            })
+            .collect();
+        rep.cover("reread.dna_file_with_protein_alphabet");
+        check_file(case, rng, rep, format, true, &f.text, &mapped, "generated DNA file, read with the protein alphabet");
+    }
     if rng.chance(0.3) {
         // the same file with Windows line ends: the readers split lines on line_ending / trim the carriage return
         let mut crlf = Vec::with_capacity(f.text.len() + f.text.len() / 16);
